@@ -15,7 +15,7 @@ COL = {"label": "label", "hint": "hint", "guidance": "guidance_hint", "cmsg": "c
 # q2's concrete name contains the name of a translatable column (names are free text; they must not be mistaken for column tags)
 Q2NAME = "q2_guidance_hint_x"
 QPATH = {"q1": ["q1"], "q2": ["g", Q2NAME], "g": ["g"], "s1": ["s1"], "s2": ["s2"], "s3": ["s3"], "c1": ["c1"]}
-CHOICES = {"L.1": ("L", 0, "l1"), "L.2": ("L", 1, "l2"), "M.1": ("M", 0, "m1"), "U.1": ("U", 0, "u1")}   # U: a spare list no select reads
+CHOICES = {"L.1": ("L", 0, "l1"), "L.2": ("L", 1, "l2"), "M.1": ("M", 0, "m1"), "M.2": ("M", 1, "m2"), "U.1": ("U", 0, "u1")}   # U: a spare list no select reads
 
 
 def cell_text(e, k, L, refs=False):
@@ -48,7 +48,8 @@ def build(case, seed=0):
     cells = {(e, k, L): cell_text(e, k, L, refs) for e, k, L in case["cells"]}
     names = rnd.choice(LANGSETS)
     hdrs = {}
-    style = {"survey": rnd.choice(["::", "::", " :: ", ":", "media"]), "choices": rnd.choice(["::", "::", " :: ", ":", "media"])}
+    styles = ["::", "::", " :: ", ":", "media", ": ", " : "]      # (blanks around either delimiter are not part of the language name)
+    style = {"survey": rnd.choice(styles), "choices": rnd.choice(styles)}
     for (e, k, L) in sorted(cells):
         sheet = "choices" if e in CHOICES else "survey"
         if (sheet, k, L) not in hdrs:
@@ -70,10 +71,10 @@ def build(case, seed=0):
         hdrs[("survey", "label", "")] = hdrs.get(("survey", "label", ""), "label")
     byname = {r.get("name"): r for r in srows}
     byname["q2"] = byname[Q2NAME]
-    crows = [{"list_name": "L", "name": "l1"}, {"list_name": "L", "name": "l2"}, {"list_name": "M", "name": "m1"}, {"list_name": "U", "name": "u1"}]
+    crows = [{"list_name": "L", "name": "l1"}, {"list_name": "L", "name": "l2"}, {"list_name": "M", "name": "m1"}, {"list_name": "M", "name": "m2"}, {"list_name": "U", "name": "u1"}]
     for (e, k, L), t in cells.items():
         if e in CHOICES:
-            crows[["L.1", "L.2", "M.1", "U.1"].index(e)][hdrs[("choices", k, L)]] = t
+            crows[["L.1", "L.2", "M.1", "M.2", "U.1"].index(e)][hdrs[("choices", k, L)]] = t
         else:
             byname[e][hdrs[("survey", k, L)]] = t
     sh = sorted({h for (s, _, _), h in hdrs.items() if s == "survey"})
